@@ -102,7 +102,7 @@ func (s *ConnSniffer) WriteTo(w io.Writer) (n int64, err error) {
 	// Flush buffered sniff data (e.g. TLS ClientHello already read).
 	if s.Sniffer != nil {
 		s.readMu.Lock()
-		if s.buf.Len() > 0 {
+		if s.buf != nil && s.buf.Len() > 0 {
 			n, err = s.buf.WriteTo(w)
 			s.readMu.Unlock()
 			if err != nil {
